@@ -123,6 +123,12 @@ def judge(res, case, rec, extra):
                       f'{res.deaths}', where)
         return
     rec.count('census_taken')
+    if res.alive_at_return and not res.leaked:
+        kind = res.outcome.split(':')[0]
+        rec.violation(f'workers-still-running-when-schedule-{kind}-{tag}',
+                      f'schedule() {res.outcome} ({res.error}) while '
+                      f'{len(res.alive_at_return)} of its worker threads had '
+                      f'not exited yet: {res.alive_at_return[:4]}', where)
     if res.leaked:
         kind = res.outcome.split(':')[0]
         rec.violation(f'workers-left-after-{kind}-{tag}',
